@@ -1,6 +1,9 @@
 SPECIFICATION Spec
 VIEW View
 CHECK_DEADLOCK FALSE
+\* ReportConflict is always TRUE (it only prints); it comes first so that a violation of a later
+\* invariant in the same state cannot hide the verdict of the canonical construction
+INVARIANT ReportConflict
 INVARIANT SimCore
 INVARIANT SimTrans
 INVARIANT SimItemLook
@@ -9,4 +12,3 @@ INVARIANT SimRedDomain
 INVARIANT ADeterministic
 INVARIANT AcceptOnEof
 INVARIANT AcceptedIsLR1
-INVARIANT ReportConflict
